@@ -52,6 +52,7 @@ import (
 	"strings"
 	"sync"
 	"sync/atomic"
+	"syscall"
 	"time"
 
 	"github.com/cockroachdb/apd/v2"
@@ -1269,6 +1270,10 @@ func (b *c17Barrier) wait() {
 }
 
 // c17Guard runs f and reports whether it returned within the limit
+// c17Guard runs f and reports whether it returned. After `limit` it does not give up while the process
+// is still burning CPU (a slow machine, the race detector, many workers side by side): a deadlock —
+// goroutines parked forever — uses none. A call is declared stuck when a further 10 s window passes
+// with less than half a second of process CPU time, or when 8 x limit (at most 15 min) is over.
 func c17Guard(limit time.Duration, f func()) bool {
 	done := make(chan struct{})
 	go func() { defer close(done); f() }()
@@ -1276,8 +1281,32 @@ func c17Guard(limit time.Duration, f func()) bool {
 	case <-done:
 		return true
 	case <-time.After(limit):
-		return false
 	}
+	hard := 8 * limit
+	if hard > 15*time.Minute {
+		hard = 15 * time.Minute
+	}
+	deadline := time.Now().Add(hard - limit)
+	for time.Now().Before(deadline) {
+		before := c17ProcessCPU()
+		select {
+		case <-done:
+			return true
+		case <-time.After(10 * time.Second):
+		}
+		if c17ProcessCPU()-before < 500*time.Millisecond {
+			return false
+		}
+	}
+	return false
+}
+
+func c17ProcessCPU() time.Duration {
+	var ru syscall.Rusage
+	if syscall.Getrusage(syscall.RUSAGE_SELF, &ru) != nil {
+		return 0
+	}
+	return time.Duration(ru.Utime.Nano() + ru.Stime.Nano())
 }
 
 func c17SessionStorm(seed int64, goroutines, procs int, topo string, rounds, steps int) c17WorkloadReport {
@@ -2632,7 +2661,7 @@ func c17FailMismatches(c *Ctx, rep c17WorkloadReport, how string) {
 }
 
 func c17RunRaceBinary(bin string, seed int64, g, procs int, mode string, nItems, callsPer int) (out string, rc int, err error) {
-	return c17RunChild(bin, 300*time.Second, c17WorkerArgs(c17Combo{g, procs, mode, nItems, callsPer}, seed)...)
+	return c17RunChild(bin, 1500*time.Second, c17WorkerArgs(c17Combo{g, procs, mode, nItems, callsPer}, seed)...)
 }
 
 // c17RunChild runs a hidden sub-command of a harness binary as a process of its own.  Everything that uses shared
@@ -2760,7 +2789,7 @@ func c17RunCombos(c *Ctx, bin, how string, combos []c17Combo) (runs int) {
 			defer wg.Done()
 			sem <- struct{}{}
 			defer func() { <-sem }()
-			outs[i].out, outs[i].rc, outs[i].err = c17RunChild(bin, 300*time.Second, c17WorkerArgs(cb, outs[i].seed)...)
+			outs[i].out, outs[i].rc, outs[i].err = c17RunChild(bin, 1500*time.Second, c17WorkerArgs(cb, outs[i].seed)...)
 		}(i, cb)
 	}
 	wg.Wait()
@@ -2802,8 +2831,10 @@ func runC17(c *Ctx) {
 			combos = append(combos, c17Combo{gp[0], gp[1], "sessions-" + topo, c.Pick(3, 6), c.Pick(40, 120)})
 		}
 	}
-	for _, gp := range [][2]int{{3, 2}, {8, 4}, {4, 4}, {16, 8}, {32, 16}} {
-		combos = append(combos, c17Combo{gp[0], gp[1], "lazy", c.Pick(1, 3), c.Pick(10, 30)})
+	// the lazy mode's documents grow with every step (integer keys of ever new widths); 32 goroutines x 90 steps
+	// took over 25 minutes in the race build next to the other workers, so the thorough tier stops at 16 x 32
+	for _, gp := range [][2]int{{3, 2}, {8, 4}, {4, 4}, {16, 8}} {
+		combos = append(combos, c17Combo{gp[0], gp[1], "lazy", c.Pick(1, 2), c.Pick(10, 16)})
 	}
 	allCombos := combos
 	if !c.Thorough() {
@@ -3207,7 +3238,7 @@ func replayC17(r *Replay) (bool, string) {
 		if items == 0 && r.Input["mode"] != "caches" {
 			items, calls = 16, 24
 		}
-		out, rc, err := c17RunChild(bin, 300*time.Second, c17WorkerArgs(c17Combo{atoi("goroutines"), atoi("gomaxprocs"), r.Input["mode"], items, calls}, seed)...)
+		out, rc, err := c17RunChild(bin, 1500*time.Second, c17WorkerArgs(c17Combo{atoi("goroutines"), atoi("gomaxprocs"), r.Input["mode"], items, calls}, seed)...)
 		if err != nil {
 			return false, "cannot run " + bin + ": " + err.Error()
 		}
